@@ -60,6 +60,7 @@ partial def entryToJson : Entry → Json
   | .meth id => Json.arr #[Json.str "m", toJson id]
   | .dep hs nx => Json.arr #[Json.str "d", toJson hs, entryToJson nx]
   | .noNext => Json.str "noNext"
+  | .ambNext ids => Json.arr #[Json.str "ambNext", toJson ids]
 
 def sortNat (xs : List Nat) : List Nat := xs.mergeSort (fun a b => a ≤ b)
 
